@@ -65,7 +65,7 @@ CHECKS = {
     ),
     "C14": dict(
         level="fault_enumeration",
-        text="Signer -> hostile channel -> verifier, plus a Byzantine sender. For every sampled honest (seed, message) the complete catalogue is enumerated: untouched (must accept); all 512 signature bit flips, all 256 public-key bit flips, every/sampled message bit, truncate/extend, S+kL for k=1..15, another signer's key, another message's signature (must reject: an accepted one would be a forgery). Adversarial triples are judged by an INDEPENDENT Ed25519 model written from RFC 8032 on plain 256-bit integers (model::ed25519; unit-tested against RFC 8032 test vectors, base-point order and torsion orders): the honest triple itself, random (key, signature) pairs, canonical non-point keys, mixed-order keys A+T (T of order 2/4/8) with a signature produced by the real signer over those key bytes (valid iff the torsion part cancels), boundary values of S (0, 1, L-1, L, L+1, 2^252, ...), special encodings of R (the 8 torsion points, non-canonical identity encodings, random), crafted equations with S from the boundary family around L / 2^252 / 2L / 8L, honest signatures made from an UNCLAMPED extended secret (signature_extended + extended_to_public, 6 scalar classes; must verify and must satisfy the model), and the small-order-key forgeries with canonical and non-canonical R whose verdict is also known in closed form. Where the property text does not fix the verdict (non-canonical key encodings; keys with a torsion component for which 'h' reduced mod L or not gives different answers) the model says 'unspecified' and the run does not judge. ~970 verifications per run; 2k runs quick, 120k thorough.",
+        text="Signer -> hostile channel -> verifier, plus a Byzantine sender. For every sampled honest (seed, message) the complete catalogue is enumerated: untouched (must accept); all 512 signature bit flips, all 256 public-key bit flips, every/sampled message bit, truncate/extend, S+kL for k=1..15, another signer's key, another message's signature (must reject: an accepted one would be a forgery). Adversarial triples are judged by an INDEPENDENT Ed25519 model written from RFC 8032 on plain 256-bit integers (model::ed25519; unit-tested against RFC 8032 test vectors, base-point order and torsion orders): the honest triple itself, random (key, signature) pairs, canonical non-point keys, mixed-order keys A+T (T of order 2/4/8) with a signature produced by the real signer over those key bytes (valid iff the torsion part cancels), boundary values of S (0, 1, L-1, L, L+1, 2^252, ...), special encodings of R (the 8 torsion points, non-canonical identity encodings, random), crafted equations with S from the boundary family around L / 2^252 / 2L / 8L, honest signatures made from an UNCLAMPED extended secret (signature_extended + extended_to_public, 7 scalar classes up to the top of scalarmult_base's documented range a[31] <= 0x80; must verify and must satisfy the model), special R (torsion points, non-canonical identity encodings, random) combined with degenerate S (0, 1, 8, L-1, L) under the honest key, and the small-order-key forgeries with canonical and non-canonical R whose verdict is also known in closed form. Where the property text does not fix the verdict (non-canonical key encodings; keys with a torsion component for which 'h' reduced mod L or not gives different answers) the model says 'unspecified' and the run does not judge. ~970 verifications per run; 2k runs quick, 120k thorough.",
         ref="DESIGN.md §4.9 and §10",
         note="Trusted: the harness's integer Ed25519 model and its own SHA-512 (FIPS 180-4; the verdict oracle does not use the library's hash). Triples are sampled (catalogue enumerated per sample), so this is evidence, not proof, that verify accepts exactly the triples satisfying the equation. Non-canonical encodings of the PUBLIC KEY are recorded but not judged.",
         technique=TECH + "; channel-fault catalogue enumerated per sampled signature; verdict oracle = independent RFC 8032 model (closed-form for forgery-hard alterations)",
@@ -86,9 +86,9 @@ CHECKS = {
     ),
     "C20": dict(
         level="fault_enumeration",
-        text="Three build profiles of the simulator (plain release; release with overflow checks and debug assertions; dev) execute the same seeds. (1) misuse: the complete catalogue of invalid calls (45 entry-point families, 467 (entry, argument) pairs) is enumerated in every run, each call injected after a random valid history of the object concerned; every call must panic or return Err, none may return a value; its mirror image `validedge` (58 calls exactly on the legal side of the documented limits, e.g. ScryptParams::new with the largest legal p for 24 values of r) must return normally in every profile. (2) ctrwrap / lenwrap: BLAKE2 byte counters (hook H1) preset next to 2^32 / 2^64 and SHA-1/SHA-2/RIPEMD-160 message-length counters (hook H4) preset next to 2^29..2^93 bytes, then a fragmented history across the boundary: no panic, counter getter invariant after every op, digest equal to the one-call digest under the same preset. (3) every other scenario's valid operations (hash contexts, stream ciphers incl. counter jumps next to 2^32-1, DRG, Poly1305, AEAD, HMAC, lifecycle, Ed25519, X25519, curve programs, KDFs): any panic on a valid operation in any profile is a violation, and the transcripts of the checked and dev builds must equal the plain release one. Thorough tier adds a Miri run (bounds, alignment, initialisation) of ~90 seeded histories.",
+        text="Three build profiles of the simulator (plain release; release with overflow checks and debug assertions; dev) execute the same seeds. (1) misuse: the complete catalogue of invalid calls (45 entry-point families, 467 (entry, argument) pairs) is enumerated in every run, each call injected after a random valid history of the object concerned; every call must panic or return Err, none may return a value; its mirror image `validedge` (58 calls exactly on the legal side of the documented limits, e.g. ScryptParams::new with the largest legal p for 24 values of r) must return normally in every profile. (2) ctrwrap / lenwrap: BLAKE2 byte counters (hook H1) preset next to 2^32 / 2^64 and SHA-1/SHA-2/RIPEMD-160 message-length counters (hook H4) preset next to 2^29..2^93 bytes, then a fragmented history across the boundary: no panic, counter getter invariant after every op, digest equal to the one-call digest under the same preset. (3) every other scenario's valid operations (hash contexts, stream ciphers incl. counter jumps next to 2^32-1, DRG, Poly1305, AEAD, HMAC, lifecycle, Ed25519, X25519, curve programs, KDFs): any panic on a valid operation in any profile is a violation, and the transcripts of the checked and dev builds must equal the plain release one. The public constant-time helper API is run the same way (scenario ctprobe: structured operand pairs, no value oracle - that would be C18). Thorough tier adds a Miri run (bounds, alignment, initialisation) of ~90 seeded histories.",
         ref="DESIGN.md §4.12",
-        note="The catalogue is enumerated completely (fault_enumeration); histories are sampled. A panic is observed through catch_unwind; an abort or fault kills the worker and is reported by the driver. Hash length counters are preset through hook H4 (scenario lenwrap). Miri runs with -Zmiri-disable-stacked-borrows (see DESIGN.md).",
+        note="The catalogue is enumerated completely (fault_enumeration); histories are sampled. A panic is observed through catch_unwind; an abort, fault or endless loop kills or stalls the simulator process: the driver localises the run (bisection over run ranges, or the simulator's watchdog for a hang), shortens its trace and reports it with a replay file (kind 'crashed'). Hash length counters are preset through hook H4 (scenario lenwrap). Miri runs with -Zmiri-disable-stacked-borrows (see DESIGN.md).",
         technique="deterministic simulation with fault injection replayed across build profiles: enumerated misuse catalogue inside seeded valid histories, counter-preset clock jumps, transcript equality across 3 profiles",
     ),
 }
